@@ -153,11 +153,16 @@ func zzC10Build(in zzC10Input) (*datadoghqv1alpha1.ExtendedDaemonSetReplicaSet, 
 	}
 	var setting *datadoghqv1alpha1.ExtendedDaemonsetSetting
 	if in.setting != "" {
+		// the same amount written canonically or not ("0.5" is stored as submitted, and reads back from a pod as "500m")
+		settingCPU := "500m"
+		if nondet.String("setting.cpuNotation", "500m", "0.5") == "0.5" {
+			settingCPU = "0.5"
+		}
 		setting = &datadoghqv1alpha1.ExtendedDaemonsetSetting{
 			ObjectMeta: metav1.ObjectMeta{Name: "setting", Namespace: zzNS},
 			Spec: datadoghqv1alpha1.ExtendedDaemonsetSettingSpec{
 				Reference:  &autoscalingv1.CrossVersionObjectReference{Name: zzEDSName},
-				Containers: []datadoghqv1alpha1.ExtendedDaemonsetSettingContainerSpec{{Name: in.setting, Resources: zzRes("500m")}},
+				Containers: []datadoghqv1alpha1.ExtendedDaemonsetSettingContainerSpec{{Name: in.setting, Resources: zzRes(settingCPU)}},
 			},
 			Status: datadoghqv1alpha1.ExtendedDaemonsetSettingStatus{Status: datadoghqv1alpha1.ExtendedDaemonsetSettingStatusValid},
 		}
@@ -271,6 +276,18 @@ func ZZ_C10_roundtrip() {
 	params := &Parameters{EDSName: zzEDSName, Strategy: &ds.Spec.Strategy, Replicaset: rs}
 	ni := NewNodeItem(node, setting)
 
+	// the pod as the controller sees it in later syncs: read back from the API, i.e. with every
+	// quantity re-parsed from its canonical text
+	if nondet.Bool("podReadBackFromAPI") {
+		pod = pod.DeepCopy() // (the created pod shares its resource maps with the setting it was built from)
+		for i := range pod.Spec.Containers {
+			for _, list := range []corev1.ResourceList{pod.Spec.Containers[i].Resources.Requests, pod.Spec.Containers[i].Resources.Limits} {
+				for name, q := range list {
+					list[name] = resource.MustParse(q.String())
+				}
+			}
+		}
+	}
 	nondet.Fact("annotationAndSettingSameContainer", in.annotation != "" && !in.unusable() && in.setting == "agent")
 	nondet.Fact("malformedAnnotation", in.unusable())
 	// "a pod just created for given inputs is recognised as up to date for the same inputs"
